@@ -138,7 +138,8 @@ func bytepad(input []byte, w int) []byte {
 	buf := make([]byte, 0, maxEncodeLen+len(input)+w)
 	buf = append(buf, leftEncode(uint64(w))...)
 	buf = append(buf, input...)
-	padlen := w - (len(buf) % w)
+	// pad with zeros up to a multiple of w (no padding if the length is already a multiple of w)
+	padlen := (w - (len(buf) % w)) % w
 	return append(buf, make([]byte, padlen)...)
 }
 
